@@ -38,6 +38,16 @@ CPPDEFS = ['-DHAVE_CONFIG_H', '-DSYSCONFDIR="/nonexistent/etc"',
 WARN = ["-w"]
 
 
+# development aid (tools/coverage.py): VERIF_VARIANT_OVERRIDE=cov builds every "asan" artifact with --coverage instead
+_OVERRIDE = os.environ.get("VERIF_VARIANT_OVERRIDE")
+
+
+def _variant(name):
+    if _OVERRIDE and name == "asan":
+        return VARIANTS[_OVERRIDE]
+    return VARIANTS[name]
+
+
 class BuildError(Exception):
     pass
 
@@ -69,7 +79,7 @@ def fresh_dir(name):
 
 def compile_objs(out, variant, sources, pic=False, extra=()):
     """sources: list of absolute paths; returns list of object paths (same order)."""
-    v = VARIANTS[variant]
+    v = _variant(variant)
     inc = _incdirs(out)
     jobs = []
     for s in sources:
@@ -86,14 +96,14 @@ def compile_objs(out, variant, sources, pic=False, extra=()):
 
 
 def link_flags(variant):
-    v = VARIANTS[variant]
+    v = _variant(variant)
     fl = [f for f in v["flags"] if f.startswith("-fsanitize") or f == "--coverage" or f == "-g"]
     return fl
 
 
 def build_daemon(out, variant="asan"):
     """Build iauthd-c and the three decision modules; returns dict of paths."""
-    v = VARIANTS[variant]
+    v = _variant(variant)
     objs = compile_objs(out, variant, [os.path.join(REPO, "src", s) for s in CORE_SRCS])
     exe = os.path.join(out, "iauthd-c")
     _run([v["cc"]] + link_flags(variant) + ["-rdynamic", "-o", exe] + objs +
@@ -113,7 +123,7 @@ def build_daemon(out, variant="asan"):
 def build_harness(out, variant, name, harness_src, repo_srcs, libs=("-levent", "-lm", "-ldl"),
                   extra=(), link_extra=()):
     """Link a harness main (from /verif/harness) against unmodified repo sources."""
-    v = VARIANTS[variant]
+    v = _variant(variant)
     srcs = [os.path.join(VERIF, "harness", harness_src)] + [os.path.join(REPO, s) for s in repo_srcs]
     objs = compile_objs(out, variant, srcs, extra=extra)
     exe = os.path.join(out, name)
@@ -122,7 +132,7 @@ def build_harness(out, variant, name, harness_src, repo_srcs, libs=("-levent", "
 
 
 def build_shared(out, variant, name, harness_src, extra=()):
-    v = VARIANTS[variant]
+    v = _variant(variant)
     objs = compile_objs(out, variant, [os.path.join(VERIF, "harness", harness_src)], pic=True, extra=extra)
     so = os.path.join(out, name + ".so")
     _run([v["cc"]] + link_flags(variant) + ["-shared", "-o", so] + objs)
